@@ -665,6 +665,63 @@ def gen_nested_panic(rng):
     return case
 
 
+def gen_panic_inflight(rng):
+    """C11 family: a handler fails (panic, or send to a dropped mailbox) while messages it has just sent to
+    live models are still queued: the failure must be reported as Panic / NoRecipient of that model (not as a
+    Deadlock or MessageLoss because of the messages in flight), on every executor."""
+    n = rng.randint(2, 4)
+    kind = rng.choice(["panic", "panic", "norecip"])
+    models = []
+    for i in range(n):
+        models.append({"cap": rng.choice([2, 4, 16]), "handlers": [[("snd", 0, "in")], [], []], "repliers": [],
+                       "outs": [[("all", 0, ("s", 0))]], "reqs": [], "init": []})
+    # model 0: sends to 1..k live models, then fails
+    k = rng.randint(1, n - 1)
+    conns = [("all", 100 * j, ("m", j, 0)) for j in range(1, k + 1)]
+    models[0]["outs"] = [conns]
+    ops = [("snd", 0, "in")] * rng.randint(1, 2)
+    if kind == "panic":
+        ops.append(("pan", rng.randint(1, 9)))
+    else:
+        models.append({"cap": 2, "place": 2, "handlers": [[], [], []], "repliers": [], "outs": [], "reqs": [], "init": []})
+        models[0]["outs"].append([("all", 0, ("m", len(models) - 1, 0))])
+        ops.append(("snd", 1, "in"))
+    models[0]["handlers"][0] = ops
+    case = {"models": models, "sinks": [("buf", 256)], "mode": "multiset", "tags": {"fault", "inflight", kind}, "threads": 1, "t0": 0,
+            "clock": [], "sources": []}
+    cmds, val = [], 0
+    if rng.random() < 0.5:
+        val += 1; cmds.append(("se", ("a", 50), 1, 0, val, None, None))      # non-empty scheduler queue
+    val += 1; cmds.append(("pe", 0, 0, val))
+    for _ in range(rng.randint(1, 2)):
+        val += 1; cmds.append(rng.choice([("pe", 1, 0, val), ("st",), ("su", ("a", 100))]))
+    case["cmds"] = cmds
+    return case
+
+
+def gen_reply_unread(rng):
+    """C19 family: process_query whose reply is produced but never read because the same run fails afterwards
+    (the replier's script first sends an event that makes another model panic / hit a dropped mailbox): the
+    simulation is then dropped with a populated reply slot, which must be released."""
+    kind = rng.choice(["panic", "norecip"])
+    m0 = {"cap": 4, "handlers": [[], [], []], "repliers": [([("snd", 0, "in")], rng.choice([0, 7])), ([], 3)],
+          "outs": [[("all", 0, ("m", 1, 0))]], "reqs": [], "init": []}
+    if kind == "panic":
+        m1 = {"cap": 4, "handlers": [[("pan", rng.randint(1, 9))], [], []], "repliers": [], "outs": [], "reqs": [], "init": []}
+    else:
+        m1 = {"cap": 4, "place": 2, "handlers": [[], [], []], "repliers": [], "outs": [], "reqs": [], "init": []}
+    case = {"models": [m0, m1], "sinks": [], "mode": "multiset", "tags": {"fault", "reply-unread", kind}, "threads": 1, "t0": 0,
+            "clock": [], "sources": []}
+    cmds, val = [], 0
+    for _ in range(rng.randint(0, 2)):
+        val += 1; cmds.append(("pq", 0, 1, val))          # queries whose replies are read
+    val += 1; cmds.append(("pq", 0, 0, val))
+    if rng.random() < 0.5:
+        val += 1; cmds.append(("pq", 0, 1, val))
+    case["cmds"] = cmds
+    return case
+
+
 def gen_deadlock(rng):
     """C06 family: query loop-backs (direct, transitive, in sub-models), saturating event loops that
     deadlock deterministically (a model that sends itself capacity+1 events from one handler), orphan
